@@ -349,16 +349,23 @@ func verifC04(a *vh.Args) {
 	// deadline can be checked under every segmentation; data integrity needs the live client and is covered above.
 	if only == "" || strings.Contains(only, "obfs4-maxlen-static") {
 		spec := regSpec{secret: 1, tt: pb.TransportType_Obfs4, params: gp, valid: true}
-		flight := vfix.Obfs4FlightOfLen(vfix.Secret(1), 8192, 150000)
-		e.Out.Extra["obfs4_maxlen_flight_found"] = flight != nil
-		if flight != nil {
+		fls := vfix.Obfs4FlightsOfLens(vfix.Secret(1), []int{141, 8192}, 200000)
+		e.Out.Extra["obfs4_maxlen_flight_found"] = fls[8192] != nil
+		e.Out.Extra["obfs4_minlen_flight_found"] = fls[141] != nil
+		for _, flight := range [][]byte{fls[8192], fls[141]} {
+			if flight == nil {
+				continue
+			}
 			cutSets := [][]int{nil, {1}, {31}, {32}, {64}, {4095}, {4096}, {4097}, {8191}, {4096, 8191}, {1, 8191}, {32, 4096}}
+			if len(flight) < 200 {
+				cutSets = [][]int{nil, {1}, {31}, {32}, {64}, {77}, {109}, {124}, {125}, {140}, {32, 140}, {64, 125}}
+			}
 			for ci, cuts := range cutSets {
 				if ci%a.ShardN != a.ShardI {
 					continue
 				}
 				for _, co := range []string{"alone", "three-mixed"} {
-					id := fmt.Sprintf("transport=obfs4-maxlen-static;coresident=%s;cuts=%v", co, cuts)
+					id := fmt.Sprintf("transport=obfs4-maxlen-static;len=%d;coresident=%s;cuts=%v", len(flight), co, cuts)
 					if only != "" && id != only {
 						continue
 					}
